@@ -35,6 +35,7 @@
 
 #include <unistd.h>
 #include <limits.h>
+#include <sys/stat.h>
 
 
 const char * g_etcLdSoPreloadPath;
@@ -266,23 +267,54 @@ char * etcLdSoPreload_readFile ()
 void etcLdSoPreload_writeFile (char * newContent)
 {
     const char * filePath;
+    char         tmpFilePath[PATH_MAX];
+    struct stat  statBuf;
 
     filePath = etcLdSoPreload_getFilePath();
 
-    FILE * fileHandle = fopen(filePath, "w+");
+    // Write the new content to a temporary file first, then atomically replace the
+    // original, so that the file is never left empty or half-written.
+    if (snprintf(tmpFilePath, PATH_MAX, "%s.snoopyctl-tmp", filePath) >= PATH_MAX) {
+        printDiagValue("ld.so.preload path", filePath);
+        fatalError("Path too long.");
+    }
+
+    FILE * fileHandle = fopen(tmpFilePath, "w");
     if (fileHandle == NULL) {
         printDiagValue("ld.so.preload path", filePath);
         printDiagValue("Error message", strerror(errno));
         fatalError("Unable to open file for writing (missing sudo, maybe?).");
     }
 
-    if (fprintf(fileHandle, "%s", newContent) < 0) {
-        printDiagValue("ld.so.preload path", filePath);
-        printDiagValue("Error message", strerror(errno));
-        fatalError("Unable to write to file.");
+    // Keep the ownership and permissions of the existing file (if there is one)
+    if (0 == stat(filePath, &statBuf)) {
+        if (0 != fchown(fileno(fileHandle), statBuf.st_uid, statBuf.st_gid)) {
+            // Not fatal
+        }
+        fchmod(fileno(fileHandle), statBuf.st_mode & 07777);
     }
 
+    if (
+        (fprintf(fileHandle, "%s", newContent) < 0)
+        ||
+        (fflush(fileHandle) != 0)
+        ||
+        (fsync(fileno(fileHandle)) != 0)
+    ) {
+        printDiagValue("ld.so.preload path", filePath);
+        printDiagValue("Error message", strerror(errno));
+        fclose(fileHandle);
+        unlink(tmpFilePath);
+        fatalError("Unable to write to file.");
+    }
     fclose(fileHandle);
+
+    if (0 != rename(tmpFilePath, filePath)) {
+        printDiagValue("ld.so.preload path", filePath);
+        printDiagValue("Error message", strerror(errno));
+        unlink(tmpFilePath);
+        fatalError("Unable to replace the file.");
+    }
 }
 
 
